@@ -18,6 +18,8 @@ use crate::wire::{bits_of_f64, float_bits, reply_bytes, Report};
 use crate::{violation, Args, NS, T0_REAL_S};
 
 const SOCK: &str = "/var/run/chrony/chronyd.sock";
+const PHC_REFID: u32 = 0x5048_4330;
+const PHC_FILE: &str = "/var/run/chrony/phc_error_bound";
 
 #[derive(Debug, Clone, Copy, PartialEq)]
 enum Action {
@@ -38,6 +40,8 @@ struct Shared {
     /// CLOCK_REALTIME = T0 + monotonic + this offset; the offset jumps when the wall clock is stepped.
     real_offset_ns: AtomicI64,
     rt_steps: Mutex<Vec<i64>>,
+    /// Per step: what the PHC error-bound file holds (None: the file is absent), when PHC is configured.
+    phc_plan: Mutex<Vec<Option<i64>>>,
     socket: Mutex<Option<UnixDatagram>>,
     mode: Mutex<Action>,
     stop: AtomicBool,
@@ -77,13 +81,15 @@ fn server(sh: Arc<Shared>) {
                     sh.mono_ns.fetch_add(lat, Ordering::SeqCst);
                 }
                 let seq = u32::from_be_bytes(buf[8..12].try_into().unwrap());
-                // the reply is tagged with the step it answers (low 16 bits of the reference id)
-                let tag = (sh.step.load(Ordering::SeqCst) as u32).wrapping_sub(1) & 0xffff;
-                let r = Report { ref_id: 0x7f7f_0000 | tag, leap: 0, ref_time_ns: T0_REAL_S as i128 * NS, correction_bits: float_bits(1 << 12, 0), delay_bits: float_bits(1 << 12, 0), dispersion_bits: float_bits(1 << 12, 0), interval_bits: bits_of_f64(16.0) };
+                // the reply is tagged with the step it answers (stratum field)
+                let tag = ((sh.step.load(Ordering::SeqCst) as u32).wrapping_sub(1) & 0xffff) as u16;
+                let r = Report { ref_id: PHC_REFID, leap: 0, ref_time_ns: T0_REAL_S as i128 * NS, correction_bits: float_bits(1 << 12, 0), delay_bits: float_bits(1 << 12, 0), dispersion_bits: float_bits(1 << 12, 0), interval_bits: bits_of_f64(16.0) };
                 match mode {
                     Action::Answer => {
                         if let Some(p) = addr.as_pathname() {
-                            let _ = sock.send_to(&reply_bytes(&r, seq), p);
+                            let mut b = reply_bytes(&r, seq);
+                            b[52..54].copy_from_slice(&tag.to_be_bytes());
+                            let _ = sock.send_to(&b, p);
                         }
                     }
                     Action::WrongReply => {
@@ -155,7 +161,7 @@ pub fn run(a: &Args) -> Value {
         return json!({"inconclusive": "not inside the private /run namespace (marker /var/run/chrony/.verif-private missing)", "evaluations": 0, "violations": []});
     }
     let with_silent = a.map.get("silent").map(|s| s == "1").unwrap_or(false);
-    let sh = Arc::new(Shared { mono_ns: AtomicI64::new(0), latency_ns: AtomicI64::new(0), real_offset_ns: AtomicI64::new(0), rt_steps: Mutex::new(Vec::new()), step: AtomicUsize::new(0), script: Mutex::new(Vec::new()), socket: Mutex::new(None), mode: Mutex::new(Action::Answer), stop: AtomicBool::new(false), coarse_reads: AtomicUsize::new(0), requests_this_step: AtomicUsize::new(0) });
+    let sh = Arc::new(Shared { mono_ns: AtomicI64::new(0), latency_ns: AtomicI64::new(0), real_offset_ns: AtomicI64::new(0), rt_steps: Mutex::new(Vec::new()), phc_plan: Mutex::new(Vec::new()), step: AtomicUsize::new(0), script: Mutex::new(Vec::new()), socket: Mutex::new(None), mode: Mutex::new(Action::Answer), stop: AtomicBool::new(false), coarse_reads: AtomicUsize::new(0), requests_this_step: AtomicUsize::new(0) });
     // Virtual clock: every CLOCK_MONOTONIC_COARSE read of a virtual thread starts the next step.
     {
         let sh = sh.clone();
@@ -171,6 +177,20 @@ pub fn run(a: &Args) -> Value {
                     sh.latency_ns.store(lat, Ordering::SeqCst);
                     let step = sh.rt_steps.lock().unwrap().get(k).cloned().unwrap_or(0);
                     sh.real_offset_ns.fetch_add(step, Ordering::SeqCst);
+                    // the device's error bound as of this poll (rewritten in place, or gone)
+                    if let Some(plan) = sh.phc_plan.lock().unwrap().get(k).cloned() {
+                        match plan {
+                            Some(v) => {
+                                use std::io::Write;
+                                if let Ok(mut f) = std::fs::OpenOptions::new().write(true).create(true).truncate(true).open(PHC_FILE) {
+                                    let _ = writeln!(f, "{}", v);
+                                }
+                            }
+                            None => {
+                                let _ = std::fs::remove_file(PHC_FILE);
+                            }
+                        }
+                    }
                     *sh.mode.lock().unwrap() = act;
                     match act {
                         Action::Vanish => {
@@ -212,6 +232,10 @@ pub fn run(a: &Args) -> Value {
         // a matter of elapsed (monotonic) time only.
         *sh.rt_steps.lock().unwrap() = (0..script.len()).map(|_| match rng.below(10) { 0 => -60_000_000_000, 1 => 4_000_000_000, 2 => -4_000_000_000, 3 => 3_600_000_000_000, _ => 0 }).collect();
         sh.real_offset_ns.store(0, Ordering::SeqCst);
+        let with_phc = rng.chance(1, 2);
+        let phc_plan: Vec<Option<i64>> = if with_phc { (0..script.len()).map(|_| if rng.chance(1, 8) { None } else { Some(*rng.pick(&[0i64, 1, 250, 12345, 31_000, 3_000_000])) }).collect() } else { Vec::new() };
+        *sh.phc_plan.lock().unwrap() = phc_plan.clone();
+        let _ = std::fs::remove_file(PHC_FILE);
         sh.step.store(0, Ordering::SeqCst);
         sh.mono_ns.store(t_start, Ordering::SeqCst);
         if std::fs::metadata(SOCK).is_err() {
@@ -227,7 +251,8 @@ pub fn run(a: &Args) -> Value {
         let ctx = Context { channel_id: ChannelId::ClockErrorBoundPoller, mbox: pmbox, dbox: dbox.clone() };
         let h = std::thread::spawn(move || {
             clock::set_thread_virtual(true);
-            run_poller_real(ctx, None, Duration::from_millis(1));
+            let phc = if with_phc { Some(clock_bound_d::PhcInfo { refid: PHC_REFID, sysfs_error_bound_path: std::path::PathBuf::from(PHC_FILE) }) } else { None };
+            run_poller_real(ctx, phc, Duration::from_millis(1));
         });
         // Watchdog in real time: 5 s per silent step, 2 s otherwise.
         let budget = script.iter().map(|(_, a, _)| if *a == Action::Silent { 5 } else { 2 }).sum::<u64>() + 5;
@@ -252,8 +277,11 @@ pub fn run(a: &Args) -> Value {
             let got = kind_of(m);
             // The grace period is judged when the query is over, i.e. `lat` after the step began.
             let t_end = *t + *lat;
+            let phc_now: Option<Option<i64>> = phc_plan.get(i).cloned();
             let expected = match act {
-                Action::Answer => "ClockErrorBoundData",
+                // the PHC is the reference of every answer: unreadable file -> not a measurement (an
+                // answer was just received, so within the grace period)
+                Action::Answer => if let Some(None) = phc_now { "PhcErrorBoundRetrievalFailedGracePeriod" } else { "ClockErrorBoundData" },
                 _ => if t_end - last_good < 5 * NS as i64 { "ChronyNotRespondingGracePeriod" } else { "ChronyNotResponding" },
             };
             *kinds.entry(format!("{:?}->{}", act, got)).or_insert(0) += 1;
@@ -268,11 +296,12 @@ pub fn run(a: &Args) -> Value {
             }
             if let Message::ClockErrorBoundData((tr, phc, as_of)) = m {
                 let as_of_ns = as_of.tv_sec as i64 * NS as i64 + as_of.tv_nsec as i64;
-                if as_of_ns != *t || *phc != 0 {
-                    violation(&mut violations, a, "C13", "real-poller-measurement", format!("step {} answer at monotonic {} ns: message as_of {} ns, phc bound {}, ref id {:#x}", i, t, as_of_ns, phc, tr.ref_id), json!({"script": format!("{:?}", script)}));
+                let want_phc = match phc_now { Some(Some(v)) => v, _ => 0 };
+                if as_of_ns != *t || *phc != want_phc {
+                    violation(&mut violations, a, "C13", "real-poller-measurement", format!("step {} answer at monotonic {} ns: message as_of {} ns, PHC bound {} (the PHC error-bound file holds {:?} at this poll), ref id {:#x}", i, t, as_of_ns, phc, phc_now, tr.ref_id), json!({"script": format!("{:?}", script)}));
                 }
-                if tr.ref_id != (0x7f7f_0000 | (i as u32 & 0xffff)) {
-                    violation(&mut violations, a, "C12", "report-not-from-this-poll", format!("step {} (as_of {} ns): the measurement message carries chronyd's reply to the request of step {} — its as_of was not read before the request that produced the report", i, as_of_ns, tr.ref_id & 0xffff), json!({"script": format!("{:?}", script)}));
+                if tr.stratum != (i as u16) {
+                    violation(&mut violations, a, "C12", "report-not-from-this-poll", format!("step {} (as_of {} ns): the measurement message carries chronyd's reply to the request of step {} — its as_of was not read before the request that produced the report", i, as_of_ns, tr.stratum), json!({"script": format!("{:?}", script)}));
                 }
             }
             if *act == Action::Answer {
